@@ -10,6 +10,7 @@ From Verif Require Import Base.Prelude Gen.Constants Model.Tdc Proofs.Tdc.
 From Verif Require Model.Lazy Proofs.Lazy.
 From Verif Require Model.Reuse Proofs.Reuse.
 From Verif Require Gen.LockOrderFacts Model.LockOrder Proofs.LockOrder.
+From Verif Require Model.PPool Proofs.PPool.
 Open Scope N_scope.
 
 (** Any write error, read error / EOF / deadline expiry, or Close closes the connection. *)
@@ -183,3 +184,19 @@ Example c07_lock_inversion_deadlocks :
 Proof. exact inversion_deadlocks. Qed.
 Example c07_repaired_order_disciplined : forallb (ordered (fun l => l) []) repaired_progs = true.
 Proof. exact repaired_disciplined. Qed.
+
+(** * The pipeline transport's pool after Close (Model.PPool): every later call fails at once with
+    "transport closed", asks no connection and changes nothing, for ever. *)
+Import Model.PPool Proofs.PPool.
+Theorem c07_pool_after_close ls s vs f s1 o :
+  prun pinit ls = Some s -> pt_closed s = true ->
+  pstep s (PGet vs f) = Some (s1, o) -> o = Some PoErrClosed /\ s1 = s /\ vs = [].
+Proof.
+  intros _ Hc Hs. destruct (pool_after_close s vs f s1 o Hc Hs) as [A B]. split; [exact A|]. split; [exact B|].
+  cbn [pstep] in Hs. rewrite Hc in Hs. destruct vs; [reflexivity|discriminate].
+Qed.
+Print Assumptions c07_pool_after_close.
+
+Theorem c07_pool_closed_forever ls s s1 : prun s ls = Some s1 -> pt_closed s = true -> pt_closed s1 = true.
+Proof. exact (pool_closed_forever ls s s1). Qed.
+Print Assumptions c07_pool_closed_forever.
